@@ -300,7 +300,11 @@ impl GlobalCollector {
         }
 
         for DropCollect { collect_id } in self.drop_collects.drain(..) {
-            self.active_collectors.remove(&collect_id);
+            // Cancelling a trace is only supported when `cancelable` is set; otherwise the
+            // trace must be kept, together with the events and properties held for it.
+            if self.config.cancelable {
+                self.active_collectors.remove(&collect_id);
+            }
         }
 
         for SubmitSpans {
